@@ -259,11 +259,8 @@ def r1b(repo, chk, sites):
             # the frame is only started when the getter returned one
             ok = ok and ("frame is not None", True) in w.guard_atoms(sf[0])
         chk.ob("R1b", f"{wname}: the getter is asked for at most remaining_flight_space - capacity bytes, capacity being what start_frame reserves", ok, "the room test of the getter and the capacity of start_frame disagree: a frame can be consumed that start_frame refuses", w.loc(w.node))
-    sfn = Fn(repo, "quic.packet_builder:QuicPacketBuilder.start_frame")
-    rs = sfn.raises("QuicPacketBuilderStop")
-    conds = [norm(r._parent.test) for r in rs if isinstance(r._parent, ast.If)]
-    ok = len(rs) == 1 and "self.remaining_buffer_space < capacity" in conds[0] and "self.remaining_flight_space < capacity" in conds[0]
-    chk.ob("R1b", "start_frame refuses only for lack of buffer / flight space relative to the declared capacity", ok, f"{conds}", sfn.loc(sfn.node))
+    ok, detail = start_frame_refusal(repo)
+    chk.ob("R1b", "start_frame refuses only for lack of buffer / flight space relative to the declared capacity", ok, detail, Fn(repo, "quic.packet_builder:QuicPacketBuilder.start_frame").loc(Fn(repo, "quic.packet_builder:QuicPacketBuilder.start_frame").node))
     pb = repo.mod("quic.packet_builder")
     rb = Fn(repo, "quic.packet_builder:QuicPacketBuilder.remaining_buffer_space")
     rf = Fn(repo, "quic.packet_builder:QuicPacketBuilder.remaining_flight_space")
@@ -271,6 +268,36 @@ def r1b(repo, chk, sites):
     b = [norm(r.value) for r in rf.returns()]
     ok = len(a) == 1 and len(b) == 1 and a[0].replace("self._buffer_capacity", "X") == b[0].replace("self._flight_capacity", "X")
     chk.ob("R1b", "remaining_flight_space and remaining_buffer_space differ only in the capacity they start from (flight capacity <= buffer capacity, C13-R3)", ok, "", rb.loc(rb.node))
+
+
+def start_frame_refusal(repo):
+    """start_frame goes on to write the frame exactly when the capacity fits the buffer space and - for frame types
+    that count as in flight - the flight space.  Decided on paths (CFG edges contradicting the assumed atoms are
+    pruned), so one compound test, consecutive tests and nested tests are the same to this rule."""
+    sf = Fn(repo, "quic.packet_builder:QuicPacketBuilder.start_frame")
+    rs = sf.raises("QuicPacketBuilderStop")
+    go = sf.calls(name="self._buffer.push_uint_var")
+    if not rs or len(go) != 1:
+        return False, "raise QuicPacketBuilderStop / the frame-type write not found"
+    cfg = sf.cfg
+    cont = cfg.node_of(go[0])
+    A = natom("self.remaining_buffer_space < capacity")
+    B = natom("frame_type not in NON_IN_FLIGHT_FRAME_TYPES")
+    C = natom("self.remaining_flight_space < capacity")
+    nA, nB, nC = natom("self.remaining_buffer_space < capacity", False), natom("frame_type not in NON_IN_FLIGHT_FRAME_TYPES", False), natom("self.remaining_flight_space < capacity", False)
+    raise_nodes = [cfg.node_of(r) for r in rs]
+    problems = []
+    if sf.reaches_assuming(cfg.entry, cont, [A]):
+        problems.append("a frame larger than the buffer space is started")
+    if sf.reaches_assuming(cfg.entry, cont, [B, C]):
+        problems.append("an in-flight frame larger than the flight space is started")
+    for assume, what in (([nA, nB], "a frame that fits and does not count as in flight is refused"), ([nA, nC], "a frame that fits buffer and flight space is refused")):
+        if any(sf.reaches_assuming(cfg.entry, rn, assume) for rn in raise_nodes) or not sf.reaches_assuming(cfg.entry, cont, assume):
+            problems.append(what)
+    writes = [norm(st) for st, t, v in sf.assigns() if cfg.reaches(cfg.entry, cfg.begin.get(st, -1)) and sf.before(st, go[0]) and not isinstance(t, ast.Name)]
+    if writes:
+        problems.append(f"state written before the tests: {writes[:2]}")
+    return not problems, "; ".join(problems)
 
 
 def _stmt_of(n):
